@@ -126,18 +126,16 @@ deriving DecidableEq, Repr
 /-- `BinaryResponse` by payload shape. `quit` is kept apart because `Client::handle_request`
     closes the connection on it. -/
 inductive Resp
-  | error (h : RespHeader) (text : String)
+  | error (h : RespHeader) (text : Bytes)
   | get (h : RespHeader) (flags : Nat) (key value : Bytes)
   | plain (h : RespHeader)          -- Set/Add/Replace/Append/Prepend/Noop/Delete/Flush/Stats
   | quit (h : RespHeader)
-  | version (h : RespHeader) (v : String)
+  | version (h : RespHeader) (v : Bytes)
   | counter (h : RespHeader) (value : Nat)
 deriving DecidableEq, Repr
 
 def Resp.header : Resp → RespHeader
   | .error h _ | .get h _ _ _ | .plain h | .quit h | .version h _ | .counter h _ => h
-
-def strBytes (s : String) : Bytes := s.toUTF8.toList
 
 /-- `write_header_impl` -/
 def encodeHeader (h : RespHeader) : Bytes :=
@@ -148,14 +146,14 @@ def encodeHeader (h : RespHeader) : Bytes :=
 def encode (r : Resp) : Bytes :=
   encodeHeader r.header ++
   match r with
-  | .error _ t => strBytes t
+  | .error _ t => t
   | .get _ flags key value => putBE 4 flags ++ key ++ value
   | .plain _ | .quit _ => []
-  | .version _ v => strBytes v
+  | .version _ v => v
   | .counter _ v => putBE 8 v
 
 /-- `storage_error_to_response` -/
 def errorResp (e : CacheError) (h : RespHeader) : Resp :=
-  .error { h with status := e.code, bodyLen := (strBytes e.text).length } e.text
+  .error { h with status := e.code, bodyLen := e.text.length } e.text
 
 end Memc
